@@ -92,7 +92,7 @@ func fnExpire(ctx *cmdContext, args map[string]any) (output respValue, err error
 	_, gt := args["condition.gt"]
 	_, lt := args["condition.lt"]
 
-	expiration := time.Now().Add(time.Duration(ttl) * time.Second)
+	expiration := deadlineAfter(time.Now(), ttl, time.Second)
 
 	output = ctx.dsc.expire(keyName, expiration, nx, xx, gt, lt)
 	return
@@ -131,7 +131,7 @@ func fnPExpire(ctx *cmdContext, args map[string]any) (output respValue, err erro
 	_, gt := args["condition.gt"]
 	_, lt := args["condition.lt"]
 
-	expiration := time.Now().Add(time.Duration(ttl) * time.Millisecond)
+	expiration := deadlineAfter(time.Now(), ttl, time.Millisecond)
 
 	output = ctx.dsc.expire(keyName, expiration, nx, xx, gt, lt)
 	return
